@@ -958,6 +958,95 @@ func (h *H) ccitt() {
 	}
 }
 
+
+// wideCols: widths at the large end of the accepted range: around k*2560 (the longest make-up code),
+// around 64*2560 = 163840 (64 make-up codes in one run) and at the limit 1<<20.
+var wideColsSmall = []int{2559, 2560, 2561, 5119, 5120, 5121, 7680, 7681}
+var wideColsLarge = []int{163839, 163840, 163841, 163840 + 2560, 166400 + 63, 1<<20 - 1, 1 << 20}
+
+// wideRow paints one row: kind 0 one colour, 1 the other colour, 2 one very long run then short runs,
+// 3 short runs then one very long run, 4 two long runs.
+func wideRow(data []byte, cols int, kind int, rnd interface{ IntN(int) int }) {
+	set := func(from, to int) { // pixels [from, to) := 1
+		for x := from; x < to && x < cols; x++ {
+			if x%8 == 0 && x+8 <= to && x+8 <= cols {
+				data[x/8] = 0xff
+				x += 7
+				continue
+			}
+			data[x/8] |= 0x80 >> (x % 8)
+		}
+	}
+	switch kind {
+	case 0:
+	case 1:
+		set(0, cols)
+	case 2:
+		long := cols - 1 - rnd.IntN(min(cols, 40))
+		set(0, long)
+		for x := long + 1 + rnd.IntN(3); x < cols; x += 2 + rnd.IntN(5) {
+			set(x, x+1)
+		}
+	case 3:
+		short := rnd.IntN(min(cols, 40))
+		for x := rnd.IntN(3); x < short; x += 2 + rnd.IntN(5) {
+			set(x, x+1)
+		}
+		set(short, cols)
+	default:
+		mid := cols/2 + rnd.IntN(64) - 32
+		if mid < 0 || mid > cols {
+			mid = cols / 2
+		}
+		if rnd.IntN(2) == 0 {
+			set(0, mid)
+		} else {
+			set(mid, cols)
+		}
+	}
+}
+
+// ccittWide: every K class x EndOfLine x EncodedByteAlign x BlackIs1 x EndOfBlock with wide rows made of
+// very long runs (few rows per image: a row of 1<<20 pixels is 128 KiB)
+func (h *H) ccittWide() {
+	e := h.e
+	for _, K := range []int{-1, 0, 1, 4} {
+		for _, eol := range []bool{false, true} {
+			for _, align := range []bool{false, true} {
+				for _, bi1 := range []bool{false, true} {
+					for _, ieob := range []bool{false, true} {
+						widths := []int{wideColsSmall[e.Rand.IntN(len(wideColsSmall))], wideColsSmall[e.Rand.IntN(len(wideColsSmall))],
+							wideColsLarge[e.Rand.IntN(len(wideColsLarge))]}
+						if e.Thorough {
+							widths = append(append([]int{}, wideColsSmall...), wideColsLarge...)
+						}
+						for _, cols := range widths {
+							rows := 1 + e.Rand.IntN(2)
+							if cols < 10000 {
+								rows = 1 + e.Rand.IntN(3)
+							}
+							f := pdf.FilterCCITTFax{K: K, EndOfLine: eol, EncodedByteAlign: align, Columns: cols, IgnoreEndOfBlock: ieob, BlackIs1: bi1}
+							if e.Rand.IntN(2) == 0 {
+								f.Rows = rows
+							}
+							bpr := (cols + 7) / 8
+							data := make([]byte, bpr*rows)
+							for r := 0; r < rows; r++ {
+								kind := e.Rand.IntN(5)
+								if r == 0 && e.Rand.IntN(2) == 0 {
+									kind = e.Rand.IntN(2) // a whole row of one colour: one run of Columns pixels
+								}
+								wideRow(data[r*bpr:(r+1)*bpr], cols, kind, e.Rand)
+							}
+							h.ccittCase(f, data, cols, rows)
+						}
+					}
+				}
+			}
+		}
+	}
+}
+
 func (h *H) ccittCase(f pdf.FilterCCITTFax, data []byte, cols, rows int) {
 	e := h.e
 	class := ccittClass(f)
@@ -986,7 +1075,7 @@ func (h *H) ccittCase(f pdf.FilterCCITTFax, data []byte, cols, rows int) {
 		h.fail(sig, fmt.Sprintf("CCITTFax %s: decode(encode(image)) != image (%d rows; got %d bytes for %d, err=%v)", label, rows, len(dec), len(data), err),
 			map[string]any{"filter": fmt.Sprintf("%#v", f), "cols": cols, "rows": rows, "data": common.Hex(data)})
 	}
-	if f.K == 0 && (cols <= 300 || e.Rand.IntN(4) == 0) {
+	if f.K == 0 && (cols <= 300 || cols <= 10000 && e.Rand.IntN(4) == 0 || e.Rand.IntN(8) == 0) {
 		h.g3ModelLines(f, data, enc, dec, err, cols, class)
 	}
 	e.Count(true, label+common.Hex(data), fmt.Sprintf("%s:%s", class, map[bool]string{true: "ok", false: "fail"}[ok]))
@@ -1295,6 +1384,7 @@ func main() {
 	h.flateLZWRoundTrips()
 	h.chains()
 	h.ccitt()
+	h.ccittWide()
 	e.Finish("a case is non-trivial when it carries data (codecs, predictors, chains, CCITT images), a parameter set validation accepts, or a non-empty dictionary; distinct by content",
 		map[string]any{})
 }
